@@ -355,6 +355,16 @@ def _run(ctx):
         check_case(ctx, wide, (1, "\n"))
         ctx.case(wide)
         ctx.count("degenerate_shapes", 2)
+        # sizes beyond what ordinary documents reach: many siblings, many attributes, very long text and attribute values
+        wider = gen.TAG("div", *[(gen.TAG("span", gen.T("s%d&" % k), ws=False) if k % 3 else gen.T("t%d<" % k)) for k in range(2500)], ws=True, how="extend")
+        check_case(ctx, wider, (0, "\n"))
+        many_attrs = gen.TAG("x-many", gen.T("k"), ws=False, via_fn=False,
+                             attrs=[["data-a%d" % k, {"t": "str", "s": "v%d\"&" % k} if k % 4 else {"t": "num", "v": k}] for k in range(260)])
+        check_case(ctx, many_attrs, (0, "\n"))
+        long_text = gen.TAG("p", gen.T("lorem <ipsum> & " * 9000), gen.TAG("b", gen.T("x" * 150000), ws=False), ws=True,
+                            attrs=[["title", {"t": "str", "s": "q\"uote' & " * 12000}]])
+        check_case(ctx, long_text, (2, "\r\n"))
+        ctx.count("degenerate_shapes", 3)
 
     # 3. random trees
     sampled = False
